@@ -60,6 +60,7 @@ import (
 	"istio.io/istio/pkg/config/host"
 	"istio.io/istio/pkg/config/protocol"
 	"istio.io/istio/pkg/log"
+	"istio.io/istio/pkg/maps"
 	"istio.io/istio/pkg/proto"
 	"istio.io/istio/pkg/slices"
 	"istio.io/istio/pkg/util/sets"
@@ -167,7 +168,8 @@ func (lb *ListenerBuilder) buildEastWestTLSPassthroughListeners() []*listener.Li
 	}
 
 	listeners := make([]*listener.Listener, 0, len(mutableopts))
-	for _, ml := range mutableopts {
+	// in the order of the listener names: the LDS response must not depend on map iteration order
+	for _, ml := range maps.SeqStable(mutableopts) {
 		ml.mutable.Listener = buildGatewayListener(*ml.opts, ml.transport)
 		if err := ml.mutable.build(lb, *ml.opts); err != nil {
 			log.Warnf("east-west gateway: omitting TLS passthrough listener %q: %v", ml.mutable.Listener.Name, err)
